@@ -691,6 +691,7 @@ func resolvePlannedField(eCtx *executionContext, parentType *Object, source inte
 	defer func() {
 		if r := recover(); r != nil {
 			handleFieldError(r, FieldASTsToNodeASTs(fp.fieldASTs), path, returnType, eCtx)
+			result = nil
 			ok = true
 		}
 	}()
